@@ -13,10 +13,12 @@ Op vocabulary (one case may hold several runs; `params` starts a fresh run):
                               how many bytes that op drained and how many bytes the real
                               consumer exposes now (`stable_prefix`)
   finish
-  zenc b|c <n>             (hcobs_enc)  right after `params`: ONE call on a piece of `n` zero bytes,
-                           then finish; ends the run
-  zdec b|c <n>             (hcobs_dec)  right after `params`: the encoding of `n` zero bytes, its
-                           first byte in one call, all the rest in a second call, then finish
+  zenc b|c <n> [fe]        (hcobs_enc)  right after `params`: ONE call on a piece of `n` zero bytes,
+                           then finish; ends the run (`fe`: the last byte of the full first chunk
+                           is FE instead; `n ≤ zCheckMax`, always replayed on the actual bytes)
+  zdec b|c <n> [<cut>]     (hcobs_dec)  right after `params`: the encoding of `n` zero bytes, its
+                           first byte (first `cut` bytes) in one call, all the rest in a second
+                           call, then finish
 
 `zenc` / `zdec` take `n` up to more than 2^32 (a single piece / slice of >= 4 GiB is where a
 length narrowed to 32 bits shows), so they are not replayed on a `List UInt8` of `n` bytes:
@@ -137,9 +139,18 @@ def fmtSummary (sm : Zeros.Summary) : String :=
   "size=" ++ toString sm.size ++ " chunks=" ++ toString sm.chunks ++ " last=" ++ toString sm.last
     ++ " hhash=" ++ toString sm.hhash.toNat
 
-/-- `zenc` on a fresh encoder run (`s.es`, `s.pipe` as `startRun` left them). -/
-def zencCheck (s : St) (m : Method) (n : Nat) : Bool :=
-  let d := Zeros.zeros n
+/-- The piece of `zenc <m> <n> fe`: `n` zeros, except that the last byte of the full first chunk
+(index `maxInit - 1`) is FE when there is one. -/
+def zerosFe (p : Params) (n : Nat) (fe : Bool) : List UInt8 :=
+  if fe && p.maxInit ≤ n then
+    Zeros.zeros (p.maxInit - 1) ++ [FE] ++ Zeros.zeros (n - p.maxInit)
+  else Zeros.zeros n
+
+/-- `zenc` on a fresh encoder run (`s.es`, `s.pipe` as `startRun` left them).  With `fe` the
+chunking (hence the summary) is that of `n` zeros: an FE followed by a zero or by nothing is not a
+stuff sequence. -/
+def zencCheck (s : St) (m : Method) (n : Nat) (fe : Bool := false) : Bool :=
+  let d := zerosFe s.p n fe
   let (es', nid', emits) := Enc.feedAll s.p s.es s.pipe.nextId m d
   let pipe1 := runEmits s.pipe emits
   let pipe' := runEmits pipe1 (Enc.finish s.p es')
@@ -147,19 +158,34 @@ def zencCheck (s : St) (m : Method) (n : Nat) : Bool :=
     && decide (pipe'.bytes = Spec.encode s.p d)
     && decide (Zeros.summarize s.p pipe'.bytes = Zeros.zeroSummary s.p n)
 
-/-- `zdec` on a fresh decoder run. -/
-def zdecCheck (s : St) (m : Method) (n : Nat) : Bool :=
+/-- `zdec` on a fresh decoder run; the first call gets the first `cut` bytes of the wire. -/
+def zdecCheck (s : St) (m : Method) (n : Nat) (cut : Nat := 1) : Bool :=
   let wire := Spec.encode s.p (Zeros.zeros n)
   decide (Zeros.summarize s.p wire = Zeros.zeroSummary s.p n) &&
-  match Dec.feedAll s.p m .initial (wire.take 1) with
+  match Dec.feedAll s.p m .initial (wire.take cut) with
   | .error _ => false
   | .ok (ds1, e1) =>
-    match Dec.feedAll s.p m ds1 (wire.drop 1) with
+    match Dec.feedAll s.p m ds1 (wire.drop cut) with
     | .error _ => false
     | .ok (ds2, e2) =>
       match Dec.finish ds2 with
       | .error _ => false
       | .ok () => decide ((runEmits (runEmits Pipe.empty e1) e2).bytes = Zeros.zeros n)
+
+/-- `zdec <m> <n> [<cut>]`: the answer does not depend on where the wire is cut (the decoder is
+split independent, `C01.dec_impl_refines_spec`); for `n ≤ zCheckMax` the state machines are
+run with exactly that cut (`spec=`). -/
+def zdecStep (s : St) (m n cut : String) : St × List String :=
+  if !s.isEnc ∧ s.phase = .live ∧ s.fresh ∧ (m = "b" ∨ m = "c") then
+    match parseMethod m, n.toNat?, cut.toNat? with
+    | some m, some n, some cut =>
+      if cut = 0 then (s, ["bad-op"]) else
+      let agree := if n ≤ zCheckMax then zdecCheck s m n cut else true
+      ({ s with phase := .done },
+        ["zdec " ++ fmtSummary (Zeros.zeroSummary s.p n) ++ " verdict=ok out=" ++ toString n
+          ++ " zeros=1 spec=" ++ b01 agree])
+    | _, _, _ => (s, ["bad-op"])
+  else (s, ["bad-op"])
 
 def step (s : St) (ws : List String) : St × List String :=
   match ws with
@@ -216,6 +242,16 @@ def step (s : St) (ws : List String) : St × List String :=
                     outBase := pipe'.consumed.length + pipe'.bytes.length }, [])
       | _, _ => (s, ["bad-op"])
     else (s, ["bad-op"])
+  | ["zenc", m, n, "fe"] =>
+    -- always replayed on the actual bytes (hence the size limit)
+    if s.isEnc ∧ s.phase = .live ∧ s.fresh ∧ (m = "b" ∨ m = "c") then
+      match parseMethod m, n.toNat? with
+      | some m, some n =>
+        if n > zCheckMax then (s, ["bad-op"]) else
+        ({ s with phase := .done },
+          ["zenc " ++ fmtSummary (Zeros.zeroSummary s.p n) ++ " pending=0 spec=" ++ b01 (zencCheck s m n true)])
+      | _, _ => (s, ["bad-op"])
+    else (s, ["bad-op"])
   | ["zenc", m, n] =>
     if s.isEnc ∧ s.phase = .live ∧ s.fresh ∧ (m = "b" ∨ m = "c") then
       match parseMethod m, n.toNat? with
@@ -225,16 +261,8 @@ def step (s : St) (ws : List String) : St × List String :=
           ["zenc " ++ fmtSummary (Zeros.zeroSummary s.p n) ++ " pending=0 spec=" ++ b01 agree])
       | _, _ => (s, ["bad-op"])
     else (s, ["bad-op"])
-  | ["zdec", m, n] =>
-    if !s.isEnc ∧ s.phase = .live ∧ s.fresh ∧ (m = "b" ∨ m = "c") then
-      match parseMethod m, n.toNat? with
-      | some m, some n =>
-        let agree := if n ≤ zCheckMax then zdecCheck s m n else true
-        ({ s with phase := .done },
-          ["zdec " ++ fmtSummary (Zeros.zeroSummary s.p n) ++ " verdict=ok out=" ++ toString n
-            ++ " zeros=1 spec=" ++ b01 agree])
-      | _, _ => (s, ["bad-op"])
-    else (s, ["bad-op"])
+  | ["zdec", m, n] => zdecStep s m n "1"
+  | ["zdec", m, n, cut] => zdecStep s m n cut
   | [op, k] =>
     if (op = "drain_slices" ∨ op = "drain_bytes" ∨ op = "drain_read") ∧ s.phase = .live then
       match k.toNat? with
